@@ -6,6 +6,8 @@ namespace AIToolbox::Factored::MDP {
     CooperativeThompsonModel::CooperativeThompsonModel(const CooperativeExperience & exp, const double discount)
             : experience_(exp), discount_(discount), transitions_({experience_.getGraph(), {}})
     {
+        setDiscount(discount);
+
         const auto & S = experience_.getS();
         auto & tProbs = transitions_.transitions;
 
@@ -173,7 +175,10 @@ namespace AIToolbox::Factored::MDP {
         }
     }
 
-    void CooperativeThompsonModel::setDiscount(const double d) { discount_ = d; }
+    void CooperativeThompsonModel::setDiscount(const double d) {
+        if ( !(d > 0.0 && d <= 1.0) ) throw std::invalid_argument("Discount parameter must be in (0,1]");
+        discount_ = d;
+    }
     double CooperativeThompsonModel::getDiscount() const { return discount_; }
 
     const State & CooperativeThompsonModel::getS() const { return experience_.getS(); }
